@@ -772,6 +772,10 @@ class Association(threading.Thread):
                 self.kill()
                 return
 
+        # The reactor was killed from another thread: nothing that waits for the
+        #   reactor to pause (send_*(), release()) may be left waiting forever
+        self._is_paused = True
+
     def set_socket(self, socket: "AssociationSocket") -> None:
         """Set the `socket` to use for communicating with the peer.
 
